@@ -475,11 +475,27 @@ def sign_ambiguous(calls, kept):
     return False
 
 
-def run_impl(kind, X, rank, extra, via_class=False):
+def make_instance(kind, rank_obj, extra):
+    """one DecompositionMixin object (re-used over several fit_transform calls by the sequence streams)"""
+    from tensorly.decomposition import TensorTrain, TensorTrainMatrix, TensorRing, Tucker
+    if kind == "tt":
+        return TensorTrain(rank_obj, **extra)
+    if kind == "ttm":
+        return TensorTrainMatrix(rank_obj, **extra)
+    if kind == "tr":
+        return TensorRing(rank_obj, **extra)
+    return Tucker(rank=rank_obj, **extra)
+
+
+def run_impl(kind, X, rank, extra, via_class=False, rank_obj=None, instance=None):
     """returns (status, value, tape) ; value: list of factor arrays or (core, factors).
-    via_class: go through the DecompositionMixin classes (TensorTrain / TensorTrainMatrix / TensorRing / Tucker).fit_transform"""
+    via_class: go through the DecompositionMixin classes (TensorTrain / TensorTrainMatrix / TensorRing / Tucker).fit_transform
+    rank_obj: hand THIS object (a list / tuple the caller keeps using) to the code instead of a fresh copy of `rank`
+    instance: call fit_transform of THIS decomposition object (built earlier, possibly already used on another tensor)"""
     from tensorly.decomposition import tensor_train, tensor_train_matrix, tensor_ring, tucker
-    if via_class:
+    if instance is not None:
+        tensor_train = tensor_train_matrix = tensor_ring = tucker = lambda X_, r_, **kw: instance.fit_transform(X_)
+    elif via_class:
         from tensorly.decomposition import TensorTrain, TensorTrainMatrix, TensorRing, Tucker
         tensor_train = lambda X_, r_, **kw: TensorTrain(r_, **kw).fit_transform(X_)
         tensor_train_matrix = lambda X_, r_, **kw: TensorTrainMatrix(r_, **kw).fit_transform(X_)
@@ -488,7 +504,9 @@ def run_impl(kind, X, rank, extra, via_class=False):
     C.reset_backends()
     if extra.get("svd") == "randomized_svd":
         np.random.seed(20260929)     # randomized_svd draws from NumPy's global state (random_state is not passed down): reproducible replays
-    rank_arg = rank if isinstance(rank, (int, float, str)) else list(rank)   # fresh list: the code writes into it
+    rank_arg = rank if isinstance(rank, (int, float, str)) else list(rank)   # fresh list: the code writes into its own copy
+    if rank_obj is not None:
+        rank_arg = rank_obj
     with Tape() as tp:
         if kind == "tt":
             st, v = C.call_impl(lambda: [np.asarray(f) for f in tensor_train(X, rank_arg, **extra).factors], timeout=TIMEOUT)
@@ -964,6 +982,221 @@ def gen_sym_corr_cases(tier, rng, nrng, method="symeig_svd"):
         else:
             rank = [rng.choice([1, 1, 2, 2, 3]) for _ in range(order)]
             yield kind, X, rank, dict(extra, n_iter_max=rng.choice([0, 1, 1, 2]), tol=0, init="svd"), {"cls": cls, "valid": True}
+
+
+# ----------------------------------------------------------------------------- multi-call sequences / size-1 interior modes
+# The functions write the bond they realised back into the rank list they work on (`rank[k + 1] = current_rank` in tensor_train
+# and tensor_ring).  That list must be the validator's own copy: a caller that re-uses ONE rank list / tuple, or ONE
+# TensorTrain / TensorTrainMatrix / TensorRing / Tucker object, for several tensors must get for EVERY tensor the decomposition of
+# its original request (the model is a pure function of (tensor, request): each step of a sequence is compared with it).
+SEQ_STYLES = ["function_shared_list", "class_object", "class_new_objects_shared_list", "function_tuple", "class_object_tuple"]
+
+
+def shrink_shape(rng, shape, keep_first=False):
+    """a shape of the same order with some modes shrunk (possibly to 1): TT-SVD realises smaller bonds on it"""
+    out = [rng.choice([1, 1, max(1, s - 1), max(1, s // 2), s]) for s in shape]
+    if keep_first:
+        out[0] = shape[0]
+    if out == list(shape):
+        j = rng.randrange(1 if keep_first and len(shape) > 1 else 0, len(shape))
+        out[j] = 1
+    return tuple(out)
+
+
+def tr_valid_for(shape, rank, mode):
+    n = len(shape)
+    rot = list(shape[mode:]) + list(shape[:mode])
+    rk = [rank] * (n + 1) if isinstance(rank, int) else list(rank)
+    rr = rk[mode:n] + rk[:mode + 1]
+    return rr[0] * rr[1] <= min(rot[0], int(np.prod(rot[1:])))
+
+
+def gen_sequences(tier, rng, nrng, small):
+    """yields (kind, style, [X_1, X_2, ...], rank, extra, info): ONE rank request object / ONE decomposition object used for
+    several tensors of the same order, typically a small tensor (whose realised bonds are clipped below the request) before a
+    big one that needs the whole request"""
+    N = (12 if tier == "quick" else 90) if small else (40 if tier == "quick" else 420)
+    small_shapes_by_kind = {"tt": [(3, 3, 3), (2, 3, 3), (3, 2, 3), (2, 2, 2, 2), (4, 4), (3, 3), (2, 2, 3), (3, 1, 3), (2, 2, 2), (2, 3, 2, 2)],
+                            "ttm": [(2, 2, 2, 2), (2, 3, 2, 2), (3, 2, 3, 2), (2, 2, 3, 3), (3, 3, 2, 2)],
+                            "tr": [(4, 2, 2), (3, 3, 3), (2, 2, 2, 2), (3, 2, 3), (2, 4, 3), (4, 3, 2)],
+                            "tucker": [(3, 3, 3), (2, 3, 3), (2, 2, 2, 2), (3, 4), (4, 2, 3)]}
+    for i in range(N):
+        kind = ["tt", "tt", "ttm", "tr", "tt", "tucker", "ttm", "tr"][i % 8]
+        style = SEQ_STYLES[(i // 2) % len(SEQ_STYLES)]
+        if small:
+            big = rng.choice(small_shapes_by_kind[kind])
+        else:
+            order = (rng.choice([2, 3, 3, 4]) if kind != "tr" else rng.choice([3, 3, 4])) if kind != "ttm" else rng.choice([4, 4, 6])
+            hi = {2: 7, 3: 5, 4: 4, 6: 2}[order]
+            big = tuple(rng.choice([2, 3, hi, hi, rng.randint(2, hi)]) for _ in range(order))
+        n = len(big)
+        extra, info = {}, {"cls": "sequence", "valid": True}
+        if kind in ("tt", "ttm"):
+            merged = big if kind == "tt" else tuple(a * b for a, b in zip(big[:n // 2], big[n // 2:]))
+            nn = len(merged)
+            full = strict_realised_formula(merged, [1] + [10 ** 6] * (nn - 1) + [1])
+            pick = rng.random()
+            if pick < 0.5:
+                rank = list(full)                                   # exactly what the big tensor needs
+            elif pick < 0.7:
+                rank = [1] + [200] * (nn - 1) + [1]
+            else:
+                rank = [1] + [max(1, r - rng.randint(0, 2)) for r in full[1:-1]] + [1]
+        elif kind == "tr":
+            mode = 0 if rng.random() < 0.5 else rng.randrange(n)     # mode 0: no rotation, the validator's list is the working list
+            suff = rng.random() < 0.6
+            rank = tr_rank_for(rng, list(big), mode, suff)
+            extra = {"mode": mode}
+            info["sufficient"] = suff
+        else:
+            rank = [max(1, s - rng.randint(0, 1)) for s in big]
+            extra = {"n_iter_max": rng.choice([0, 1, 2]), "tol": 0, "init": "svd"}
+        pattern = rng.choice(["SB", "SB", "SB", "BSB", "SSB", "SBB"])
+        shapes = []
+        for ch in pattern:
+            if ch == "B":
+                shapes.append(big)
+                continue
+            sh = big
+            for _ in range(12):
+                sh = shrink_shape(rng, big)
+                if kind != "tr" or tr_valid_for(sh, rank, extra["mode"]):
+                    break
+            else:
+                sh = big
+            shapes.append(sh)
+        Xs = []
+        for sh in shapes:
+            cls = rng.choice(["generic", "generic", "integer", "lowtt"])
+            X = make_tensor(cls, sh, nrng, rng)
+            if small and X.dtype.kind == "f":
+                X = np.round(X * 16) / 16
+                if not X.any():
+                    X.flat[0] = 1.0
+            Xs.append(X)
+        yield kind, style, Xs, rank, extra, info
+
+
+def run_sequence(kind, style, Xs, rank, extra):
+    """runs the whole sequence against the implementation; yields (step, X, st, v, calls, snapshot of the per-run recorder globals)"""
+    if isinstance(rank, int):
+        shared = rank
+    elif style.endswith("tuple"):
+        shared = tuple(rank)
+    else:
+        shared = list(rank)          # THE object every call of the sequence receives
+    inst = None
+    if style in ("class_object", "class_object_tuple"):
+        inst = make_instance(kind, shared, extra)
+    for step, X in enumerate(Xs):
+        if style == "class_new_objects_shared_list":
+            inst = make_instance(kind, shared, extra)
+        st, v, calls = run_impl(kind, X, rank, extra, rank_obj=shared, instance=inst)
+        yield step, X, st, v, calls, (list(LAST_KEPT), list(LAST_EIGH), list(LAST_SYM), [list(x) for x in LAST_RAND])
+
+
+def result_ranks(kind, v):
+    """the ranks a result advertises: bond dimensions of the factors / shape of the Tucker core"""
+    if kind == "tucker":
+        return [int(x) for x in v[0].shape]
+    return [int(f.shape[0]) for f in v] + [int(v[-1].shape[-1])]
+
+
+def history_message(kind, X, rank, extra, st, v):
+    """a call inside a sequence must return what the same call returns on its own with a fresh copy of the request (the
+    decomposition is a function of the tensor and the request, not of earlier calls): same status, same ranks, same error"""
+    st_f, v_f, _ = run_impl(kind, X, rank, extra)
+    if timed_out(st_f, v_f) or timed_out(st, v):
+        return None
+    if (st == "ok") != (st_f == "ok"):
+        return f"{kind}: status {st} ({str(v)[:80] if st != 'ok' else 'a result'}) in the sequence but {st_f} for the same call on its own"
+    if st != "ok":
+        return None
+    ra, rb = result_ranks(kind, v), result_ranks(kind, v_f)
+    if ra != rb:
+        return f"{kind}: returns ranks {ra} in the sequence but {rb} for the same call on its own (request {rank})"
+    rec = {"tt": tt_full, "tr": tr_full, "ttm": ttm_full}.get(kind)
+    try:
+        ea = fro(num(X) - (tucker_full(v[0], v[1]) if kind == "tucker" else rec(v)))
+        eb = fro(num(X) - (tucker_full(v_f[0], v_f[1]) if kind == "tucker" else rec(v_f)))
+    except Exception:
+        return None
+    if abs(ea - eb) > 1e-6 * fro(X) + 1e-6 * max(ea, eb):
+        return f"{kind}: error {ea:.6e} in the sequence but {eb:.6e} for the same call on its own (request {rank})"
+    return None
+
+
+def restore_snapshot(snap):
+    LAST_KEPT[:] = list(snap[0]); LAST_EIGH[:] = list(snap[1]); LAST_SYM[:] = list(snap[2]); LAST_RAND[:] = [list(x) for x in snap[3]]
+
+
+def describe_seq(kind, style, Xs, step, rank, extra, info):
+    return {"function": kind, "sequence_style": style, "sequence": [np.asarray(x) for x in Xs], "step": step, "tensor": np.asarray(Xs[step]),
+            "rank": rank, "options": {k: v for k, v in extra.items()}, "class": "sequence", "sufficient_rank_requested": info.get("sufficient")}
+
+
+def gen_unit_mode_cases(tier, rng, nrng, small):
+    """size-1 INTERIOR modes with a requested bond that DROPS across them: (a, 1, b) with request (1, r1, r2 < r1, 1) -- the bond after
+    the size-1 mode must still be clipped to the request (returned ranks = realised_tt_rank) and the lower bound must hold"""
+    N = (12 if tier == "quick" else 70) if small else (35 if tier == "quick" else 300)
+    for i in range(N):
+        kind = ["tt", "tr", "tr", "ttm", "tt"][i % 5]
+        order = rng.choice([3, 3, 4]) if not small else rng.choice([3, 3, 3, 4])
+        hi = 3 if small else rng.choice([3, 4, 5])
+        while True:
+            shape = [rng.randint(2, hi) for _ in range(order)]
+            ones = rng.sample(range(1, order - 1), rng.randint(1, max(1, order - 2) if order > 3 else 1)) if rng.random() < 0.85 else [rng.choice([0, order - 1])]
+            for j in ones:
+                shape[j] = 1
+            if not small or int(np.prod(shape)) <= (24 if kind != "ttm" else 6):
+                break
+        cls = rng.choice(["generic", "generic", "integer", "lowtt"])
+        extra, info = {}, {"cls": cls, "valid": True}
+        if kind == "ttm":
+            # both members of a pair have size 1 -> a size-1 interior mode of the merged tensor
+            ins = [max(1, s if s == 1 else rng.choice([1, 2, s])) for s in shape]
+            outs = [1 if s == 1 else max(1, rng.choice([2, 2, 3]) if ins[j] == 1 else rng.choice([1, 2])) for j, s in enumerate(shape)]
+            shp = tuple(ins + outs)
+            if small and int(np.prod(shp)) > 36:
+                shp = tuple([2 if s != 1 else 1 for s in shape] * 2)
+            merged = [a * b for a, b in zip(shp[:order], shp[order:])]
+        else:
+            shp = tuple(shape); merged = list(shape)
+        X = make_tensor(cls, shp, nrng, rng)
+        if small and X.dtype.kind == "f":
+            X = np.round(X * 16) / 16
+            if not X.any():
+                X.flat[0] = 1.0
+        if kind == "tr":
+            mode = rng.randrange(order)
+            rot = list(shp[mode:]) + list(shp[:mode])
+            cap = min(rot[0], int(np.prod(rot[1:])))
+            r1 = cap; r0 = 1
+            rk_rot = [r0, r1]
+            cur = r1
+            for j in range(1, order - 1):      # decreasing requests along the ring, also across the size-1 modes
+                cur = max(1, cur - rng.randint(0, 2))
+                rk_rot.append(cur)
+            rk_rot.append(r0)
+            rank = [0] * (order + 1)
+            for j in range(order):
+                rank[(mode + j) % order] = rk_rot[j]
+            rank[order] = rank[0]
+            yield kind, X, rank, {"mode": mode}, dict(info, sufficient=False)
+            continue
+        full = strict_realised_formula(merged, [1] + [10 ** 6] * (order - 1) + [1])
+        rank = [1]
+        cur = None
+        for j in range(1, order):
+            if cur is None:
+                cur = full[j]
+            elif merged[j - 1] == 1 or rng.random() < 0.5:
+                cur = max(1, cur - rng.randint(1, 2))     # the request drops across the size-1 mode
+            else:
+                cur = full[j]
+            rank.append(cur)
+        rank.append(1)
+        yield kind, X, rank, extra, info
 
 
 # ----------------------------------------------------------------------------- AST tie of the integer decision logic
@@ -1465,10 +1698,26 @@ def run(chk):
     resid = []
     orth = []
     eigh_resid = []
-    for (kind, X, rank, extra, info) in load_corpus() + list(gen_corr_cases(tier, rng, nrng)) + list(gen_sym_corr_cases(tier, rng, nrng)) + list(gen_sym_corr_cases(tier, rng, nrng, "randomized_svd")):
+    # every step of a multi-call sequence (one shared rank object / one decomposition object) is a correspondence case of its own:
+    # the model is a pure function of (tensor, ORIGINAL request), so a write-back into the caller's request shows up here
+    seq_items = []
+    for (kind, style, Xs, rank, extra, info) in gen_sequences(tier, rng, nrng, True):
+        if any(x.size > 40 for x in Xs):
+            continue
+        for (step, X, st, v, calls, snap) in run_sequence(kind, style, Xs, rank, extra):
+            seq_items.append((kind, X, rank, extra, dict(info, cls="sequence", _pre=(st, v, calls, snap), _seq=(style, Xs, step))))
+            chk.hist("corr_sequence_step", f"{kind}/{style}")
+    for (kind, X, rank, extra, info) in (load_corpus() + list(gen_corr_cases(tier, rng, nrng)) + list(gen_unit_mode_cases(tier, rng, nrng, True)) + seq_items
+                                         + list(gen_sym_corr_cases(tier, rng, nrng)) + list(gen_sym_corr_cases(tier, rng, nrng, "randomized_svd"))):
         if X.size > 40:
             continue
-        st, v, calls = run_impl(kind, X, rank, extra)
+        if "_pre" in info:
+            st, v, calls, snap = info["_pre"]
+            restore_snapshot(snap)
+        else:
+            st, v, calls = run_impl(kind, X, rank, extra)
+        if info.get("cls") in ("generic", "integer", "lowtt") and any(s_ == 1 for s_ in X.shape[1:-1]):
+            chk.hist("corr_unit_interior_mode", kind)
         sym = extra.get("svd") == "symeig_svd"
         rnd = extra.get("svd") == "randomized_svd"
         if rnd:
@@ -1496,7 +1745,12 @@ def run(chk):
             continue
         msg = predicate(kind, X, rank, extra, st, v, info, calls)
         if msg:
-            chk.finding(EP[kind], describe(kind, X, rank, extra, info), msg, "C09_bounds")
+            if "_seq" in info:
+                style_, Xs_, step_ = info["_seq"]
+                chk.finding(EP[kind], describe_seq(kind, style_, Xs_, step_, rank, extra, info),
+                            f"call {step_ + 1} of a sequence sharing one rank request ({style_}): " + msg, "C09_call_sequence")
+            else:
+                chk.finding(EP[kind], describe(kind, X, rank, extra, info), msg, "C09_bounds")
         chk.hist("corr_class", info["cls"])
         if kind == "tt" and st == "ok":
             check_validate_strict(chk, X, rank, v)
@@ -1558,8 +1812,10 @@ def run(chk):
         chk.broken.append({"what": "correspondence corr:C09 shard not evaluated", "detail": b})
     for i in sorted(failing):
         kind, X, rank, extra, info, st = meta[i]
-        chk.disagreement("corr:C09 (Model/SvdDecomp.v vs tensorly/decomposition/_tt.py,_tr_svd.py,_tucker.py,tenalg/svd.py)",
-                         {"function": kind, "shape": list(X.shape), "tensor": np.asarray(X), "rank": rank, "options": {k: str(v_) for k, v_ in extra.items()}, "impl_outcome": st})
+        case_d = {"function": kind, "shape": list(X.shape), "tensor": np.asarray(X), "rank": rank, "options": {k: str(v_) for k, v_ in extra.items()}, "impl_outcome": st}
+        if "_seq" in info:
+            case_d.update({"sequence_style": info["_seq"][0], "step": info["_seq"][2], "sequence_shapes": [list(x.shape) for x in info["_seq"][1]]})
+        chk.disagreement("corr:C09 (Model/SvdDecomp.v vs tensorly/decomposition/_tt.py,_tr_svd.py,_tucker.py,tenalg/svd.py)", case_d)
     # ---- predicate cases (larger; search / test part, toleranced) ---------------------------
     extra_budget = 3 if (failing or chk.broken) else 1     # widen the search around a broken correspondence
     n_pred = 0
@@ -1605,6 +1861,40 @@ def run(chk):
             if msg:
                 chk.finding(EP[kind], describe(kind, X, rank, extra, info), msg, "C09_bounds")
             if kind == "tt" and st == "ok":
+                check_validate_strict(chk, X, rank, v)
+    # ---- size-1 interior modes with a request that drops across them (predicates + realised-rank formula) ----
+    for (kind, X, rank, extra, info) in gen_unit_mode_cases(tier, rng, nrng, False):
+        extra = dict(extra)
+        if rng.random() < 0.3:
+            extra["svd"] = rng.choice(METHODS[1:])
+        st, v, calls = run_impl(kind, X, rank, extra, via_class=rng.random() < 0.2)
+        if timed_out(st, v):
+            chk.hist("skipped_timeout", kind)
+            continue
+        msg = predicate(kind, X, rank, extra, st, v, info, calls)
+        chk.count(key=("unit_mode", kind, X.shape, str(rank), tuple(sorted((k, str(v_)) for k, v_ in extra.items())), info["cls"]), nontrivial=X.size > 1)
+        chk.hist("unit_mode_stream", kind)
+        if msg:
+            chk.finding(EP[kind], describe(kind, X, rank, extra, info), msg, "C09_bounds")
+        if kind == "tt" and st == "ok":
+            check_validate_strict(chk, X, rank, v)
+    # ---- multi-call sequences: one rank list / tuple / decomposition object used for several tensors (predicates, every step) ----
+    for (kind, style, Xs, rank, extra, info) in gen_sequences(tier, rng, nrng, False):
+        extra = dict(extra)
+        if rng.random() < 0.25:
+            extra["svd"] = rng.choice(METHODS[1:])
+        for (step, X, st, v, calls, snap) in run_sequence(kind, style, Xs, rank, extra):
+            if timed_out(st, v):
+                chk.hist("skipped_timeout", kind)
+                continue
+            restore_snapshot(snap)
+            msg = predicate(kind, X, rank, extra, st, v, info, calls) or history_message(kind, X, rank, extra, st, v)
+            chk.count(key=("sequence", kind, style, step, X.shape, str(rank), tuple(sorted((k, str(v_)) for k, v_ in extra.items()))), nontrivial=X.size > 1)
+            chk.hist("sequence_stream", f"{kind}/{style}"); chk.hist("sequence_step", step)
+            if msg:
+                chk.finding(EP[kind], describe_seq(kind, style, Xs, step, rank, extra, info),
+                            f"call {step + 1} of a sequence sharing one rank request ({style}): " + msg, "C09_call_sequence")
+            if kind == "tt" and st == "ok" and "svd" not in extra:
                 check_validate_strict(chk, X, rank, v)
     # ---- every svd= method on low-rank / rank-deficient inputs with over-requested, sufficient and truncating ranks ----
     for (kind, X, rank, extra, info) in gen_method_cases(tier, rng, nrng):
@@ -1662,10 +1952,23 @@ def replay(payload):
         realised = strict_realised_formula(shape, norm_rank_tt(len(shape), rank))
         print("replay: validate_tt_rank strict", shape, rank, "->", strict, "realised by TT-SVD:", realised)
         return 1 if strict != realised else 0
-    X = C.from_jsonable_array(inp["tensor"])
     rank = inp["rank"]
     extra = dict(inp.get("options") or {})
     info = {"valid": True, "sufficient": bool(inp.get("sufficient_rank_requested"))}
+    if inp.get("sequence_style"):
+        Xs = [C.from_jsonable_array(a) for a in inp["sequence"]]
+        bad = 0
+        for (step, X, st, v, calls, snap) in run_sequence(kind, inp["sequence_style"], Xs, rank, extra):
+            if timed_out(st, v):
+                print("replay: implementation call timed out (machine load); not a verdict")
+                continue
+            restore_snapshot(snap)
+            msg = ("non-finite output or SVD query" if not finite(st, v, calls) else None) or predicate(kind, X, rank, extra, st, v, info, calls) \
+                or history_message(kind, X, rank, extra, st, v)
+            print("replay: sequence", inp["sequence_style"], "call", step + 1, kind, X.shape, rank, extra, "->", msg or "holds")
+            bad += 1 if msg else 0
+        return 1 if bad else 0
+    X = C.from_jsonable_array(inp["tensor"])
     st, v, calls = run_impl(kind, X, rank, extra)
     if timed_out(st, v):
         print("replay: implementation call timed out (machine load); not a verdict")
